@@ -101,6 +101,30 @@ def main():
                         r = defcon.Font(p)
                     out["static%d/%s/ttf-reloaded" % (i, lib)] = sha(lambda: ufo2ft.compileTTF(r))
                     out["static%d/%s/otf-reloaded" % (i, lib)] = sha(lambda: ufo2ft.compileOTF(r))
+            # a COLRv1 colour font (explicit colorLayers with Paint dicts, two base glyphs, glyphs CREATED in an order that is
+            # neither the glyph order nor alphabetical): in memory, saved and re-opened, both libraries
+            sq = lambda x, y, d: [[(Fr(x), Fr(y), "line"), (Fr(x + d), Fr(y), "line"), (Fr(x + d), Fr(y + d), "line"), (Fr(x), Fr(y + d), "line")]]
+            cg = {"b": (0x62, sq(0, 0, 600)), "b.color2": (None, sq(300, 300, 300)), "a.color1": (None, sq(0, 0, 250)), "a": (0x61, sq(0, 0, 500)),
+                  "b.color1": (None, sq(0, 0, 300)), "a.color2": (None, sq(250, 250, 250))}
+            corder = list(cg)
+            rng.shuffle(corder)
+            paint = lambda nm: {"Format": 1, "Layers": [{"Format": 10, "Glyph": "%s.color%d" % (nm, k + 1),
+                                                         "Paint": {"Format": 2, "PaletteIndex": k, "Alpha": 1.0}} for k in range(2)]}
+            cdesc = {"glyphs": [{"name": nm, "unicodes": [cg[nm][0]] if cg[nm][0] else [], "width": 600, "contours": cg[nm][1],
+                                 "components": [], "anchors": []} for nm in corder],
+                     "glyphOrder": sorted(cg, reverse=True),
+                     "lib": {"com.github.googlei18n.ufo2ft.colorPalettes": [[(1.0, 0.0, 0.0, 1.0), (0.0, 0.0, 1.0, 1.0)]],
+                             "com.github.googlei18n.ufo2ft.colorLayers": {"b": paint("b"), "a": paint("a")}}}
+            for lib in ("ufoLib2", "defcon"):
+                out["colr%d/%s/ttf" % (i, lib)] = sha(lambda: ufo2ft.compileTTF(build_font(cdesc, lib)))
+                out["colr%d/%s/otf-first" % (i, lib)] = sha(lambda: ufo2ft.compileOTF(build_font(cdesc, lib)))
+                p = os.path.join(work, "colr%d-%s.ufo" % (i, lib))
+                build_font(cdesc, lib).save(p)
+                import ufoLib2, defcon
+                r = ufoLib2.Font.open(p) if lib == "ufoLib2" else defcon.Font(p)
+                out["colr%d/%s/ttf-reloaded" % (i, lib)] = sha(lambda: ufo2ft.compileTTF(r))
+                r = ufoLib2.Font.open(p) if lib == "ufoLib2" else defcon.Font(p)
+                out["colr%d/%s/otf-reloaded" % (i, lib)] = sha(lambda: ufo2ft.compileOTF(r))
             # a family
             ds_rng = random.Random(seed * 1000 + i)
             for lib in ("ufoLib2", "defcon"):
